@@ -411,6 +411,19 @@ func runBatch(c *vh.Ctx, jobs []job) batchStats {
 	var st batchStats
 	var reqs []string
 	var reqIdx []int
+	// the failures of a batch are reported smallest case first (the first one becomes the replay)
+	var pending []vh.Failure
+	var pendingSize []int
+	defer func() {
+		idx := make([]int, len(pending))
+		for i := range idx {
+			idx[i] = i
+		}
+		sort.SliceStable(idx, func(a, b int) bool { return pendingSize[idx[a]] < pendingSize[idx[b]] })
+		for _, i := range idx {
+			c.Fail(pending[i])
+		}
+	}()
 	for i, j := range jobs {
 		o := outs[i]
 		c.Hit("stream:" + j.cs.Stream)
@@ -435,7 +448,8 @@ func runBatch(c *vh.Ctx, jobs []job) batchStats {
 			what, got, want = judgeFault(j, o)
 		}
 		if what != "" {
-			c.Fail(vh.Failure{Kind: "oracle", What: what, Finding: classify(j.cs, o), Case: j.cs, Got: got, Want: want})
+			pending = append(pending, vh.Failure{Kind: "oracle", What: what, Finding: classify(j.cs, o), Case: j.cs, Got: got, Want: want})
+			pendingSize = append(pendingSize, len(j.cs.Src)+len(j.cs.Input)+len(strings.Join(j.cs.Vars, ""))+len(strings.Join(j.cs.History, "")))
 		}
 		if j.cs.Fault != nil {
 			c.Hit("fault-entry:" + j.cs.Fault.Entry)
@@ -573,10 +587,10 @@ func run(c *vh.Ctx) {
 	// debugging aid: run one of the directed streams alone
 	switch os.Getenv("C02_ONLY") {
 	case "operands":
-		runBatch(c, operandJobs(c))
+		operandJobs(c, func(b []job) { runBatch(c, b) })
 		return
 	case "strops":
-		runBatch(c, stropsJobs(c))
+		stropsJobs(c, func(b []job) { runBatch(c, b) })
 		return
 	case "models":
 		substrCorrespondence(c)
@@ -683,26 +697,35 @@ func run(c *vh.Ctx) {
 		"caches empty or full; dynamic regexes valid/invalid across ~ match split sub gsub FS RS; CSV field names; one name as input file, output file and command)", len(kj)))
 	lap("same-key")
 	// 5f. string operations x byte/character mode x broken UTF-8 at the start, middle, end x numeric arguments at every boundary
-	sj := stropsJobs(c)
-	st = runBatch(c, sj)
+	nstr, tstr := 0, 0
+	stropsJobs(c, func(batch []job) {
+		b := runBatch(c, batch)
+		nstr += len(batch)
+		tstr += b.timeouts
+	})
 	c.Note(fmt.Sprintf("strops: %d cases (%d operations: substr 2/3-argument, index, length, match, split incl. \"\" / char / regex separator, sub, gsub, tolower/toupper, "+
 		"sprintf/printf %%c %%s %%*.*s and numeric verbs, comparison, concatenation, string-to-number, array keys, field splitting and rebuilding under %d field separators, dynamic "+
 		"regexes made of the pieces of the string in match/split/sub/gsub/SUBSEP/RS/FS, getline forms) x byte and character mode x %d atoms (valid 2/3/4-byte, U+FFFD, BOM, stray continuation, "+
 		"truncated 2/3/4-byte sequences, overlong, surrogate, out of range, 0xFF/0xFE, NUL and separators) at the start / middle / end / alone / doubled / between and after multi-byte characters + random "+
 		"concatenations x %d numeric values per argument (0, 1, L, C, each +-1, +-2, +-0.5, negative, 2^31, 2^32, 2^53, 2^63, 1e30, 1e308, NaN, +-Inf, strings) x route (Config.Vars, input record), %d timeouts; panics only",
-		len(sj), len(strOps)+len(strRecOps), len(strFS)+6, len(strAtoms), len(strNums)+2, st.timeouts))
+		nstr, len(strOps)+len(strRecOps), len(strFS)+6, len(strAtoms), len(strNums)+2, tstr))
 	lap("strops")
 	if c.HasLean() {
 		substrCorrespondence(c)
 		lap("substr-model")
 	}
 	// 5g. literal / constant operand shapes x earlier accesses to the same record x every use x context
-	oj := operandJobs(c)
-	st = runBatch(c, oj)
+	nop, pop, top := 0, 0, 0
+	operandJobs(c, func(batch []job) {
+		b := runBatch(c, batch)
+		nop += len(batch)
+		pop += b.parsed
+		top += b.timeouts
+	})
 	c.Note(fmt.Sprintf("operands: %d cases, %d accepted by the parser (%d field-index shapes: literal, negated, parenthesised, fractional, huge around 2^31 / 2^32 / 2^63, NF-relative, constant "+
 		"expressions, strings, nested, through variables; %d subscripts x global / special / local arrays) x %d earlier accesses to the same record (reads, NF, field and $0 assignments, NF changes, "+
 		"getline forms, sub) x %d read uses (a third of them per program) or one of %d write uses followed by reading back x %d contexts (rule, two rules, pattern, range, BEGIN, BEGIN with getline loops, END, functions, "+
-		"recursion, loops, next), %d timeouts; panics only", len(oj), st.parsed, len(fieldOperands), len(subscripts), len(preStates), len(readUses), len(writeUses), len(opContexts), st.timeouts))
+		"recursion, loops, next), %d timeouts; panics only", nop, pop, len(fieldOperands), len(subscripts), len(preStates), len(readUses), len(writeUses), len(opContexts), top))
 	lap("operands")
 	if c.HasLean() {
 		operandCorrespondence(c)
